@@ -4,6 +4,7 @@ Requests carry `"p"` (property / model family) and `"op"`.  The driver executes 
 definitions the theorems in `PeroVerif/Props` talk about (no `implemented_by`).
 -/
 import PeroVerif.Drv.Common
+import PeroVerif.Drv.C02
 import PeroVerif.Drv.C04
 import PeroVerif.Drv.C05
 import PeroVerif.Drv.C13
@@ -12,6 +13,8 @@ open Lean Drv
 
 def dispatch (p : String) : Option Handler :=
   match p with
+  | "C02" => some Drv.C02.handle
+  | "C03" => some Drv.C02.handle
   | "C04" => some Drv.C04.handle
   | "C05" => some Drv.C05.handle
   | "C13" => some Drv.C13.handle
